@@ -604,4 +604,8 @@ theorem Invp.reachable {k : Cfg} (hk : 0 ≤ k.cap) {s : St} (hr : PReachable k 
   intro s l s' h hf
   exact ⟨h.H.pstep hf, h.C.pstep h.Z.le hf, h.Z.pstep h.H h.C hf, h.W.pstep h.C h.Z hf⟩
 
+/-- the persistent queue is at rest: no goroutine can take a step of its own (moved here from `Props/C02.lean` so that
+lemma files can use it; definition unchanged) -/
+def PQuiescent (k : Cfg) (s : St) : Prop := ∀ l, Label.internal l = true → pfire k s l = none
+
 end OtelVerif.C02
